@@ -44,7 +44,9 @@ def build():
     u.module("acme_proto", "use crate::*;\nuse crate::shims::*;\nuse crate::shims::structs::*;\nuse crate::shims::{http, storage, certificate, serde_json};\n"
              "use crate::jws::encode_kid;\nuse crate::acme_common::error::Error;")
     u.verify(AP, "request_certificate", "acme_proto", props=["C03", "C05", "C07", "C01", "C02", "C10", "C11"], fns={"request_certificate": FnSpec(
-        ret="r", ghost=True, locks=True, attrs="#[verifier::exec_allows_no_decreases_clause]", sig="""
+        ret="r", ghost=True, locks=True, attrs="#[verifier::exec_allows_no_decreases_clause]",
+        # the contract speaks of the order that is finalized / whose certificate is downloaded: the variables the code itself uses there
+        names={"ofin": r"&(\w+)\.finalize\b", "ocert": r"let \w+ = (\w+)\s*\.certificate"}, sig="""
     requires old(w).pending_clean.len() == 0, !old(w).hooks_ok, !old(w).cert_written, old(w).cur_auth is None, old(w).downloaded is None,
     ensures
         // success is reported only after the downloaded certificate has been written next to the key
@@ -109,15 +111,15 @@ def build():
     proof {
         // the CSR goes to an order the CA reports ready (RFC 8555 section 7.4): an order that is already valid has been finalized with
         // another CSR, and its certificate is for that other key
-        assert(order.status is Ready); //@C03.only_an_order_that_is_ready_is_finalized,C01.only_an_order_that_is_ready_is_finalized
+        assert($ofin.status is Ready); //@C03.only_an_order_that_is_ready_is_finalized,C01.only_an_order_that_is_ready_is_finalized
     }"""),
-            ("before_stmt_re", r"let \w+ = order\s*\.certificate", 1, "let ghost order_cert__ = order.certificate;"),
+            ("before_stmt_re", r"let \w+ = \w+\s*\.certificate", 1, "let ghost order_cert__ = $ocert.certificate; let ghost order_valid__ = $ocert.status is Valid;"),
             ("before_stmt", "http::get_certificate(", 1, """
     proof {
         // what is downloaded is what the order names as its certificate
         w.cert_url = match order_cert__ { Some(u) => Some(u@), None => None };
         // the certificate is fetched only from an order the CA reports valid (an announced URL alone is not an issued certificate)
-        assert(order.status is Valid); //@C03.certificate_is_downloaded_only_from_a_valid_order,C07.certificate_is_downloaded_only_from_a_valid_order
+        assert(order_valid__); //@C03.certificate_is_downloaded_only_from_a_valid_order,C07.certificate_is_downloaded_only_from_a_valid_order
     }"""),
             ("before_stmt_re", r"\.register\(", 1, """
                     proof {
